@@ -28,7 +28,7 @@ ASSUMPTIONS = [
     "unsatisfiable settings (fewer jobs than machines disallowed but min jobs < min machines) are excluded",
 ]
 BOUNDS = {
-    "quick": "jobs in {1,2,3,(1,2),(2,3)} x machines in {1,2,3,(1,2),(2,3)} x durations {(1,1),(0,1)} x allow_less x recirculation x machines_per_operation {1,(1,1),2,(1,2),(2,2)}, with explicit size arguments for a third of them; settings whose tree exceeds 60000 leaves are capped; seeds {0,1,2,42} x 12 settings",
+    "quick": "jobs in {1,2,3,(1,2),(2,3)} x machines in {1,2,3,(1,2),(2,3)} x durations {(1,1),(0,1)} x allow_less x recirculation x machines_per_operation {1,(1,1),2,(1,2),(2,2)}, with explicit size arguments (both sizes for a third of the settings, only the job count or only the machine count for another third); settings whose tree exceeds 60000 leaves are capped; seeds {0,1,2,42} x 12 settings",
     "thorough": "same grid + durations (2,3), cap 400000 leaves; seeds {0..9,42,2**31} x 24 settings",
 }
 
@@ -72,6 +72,13 @@ def cases(tier, seed):
             if p["allow_less_jobs_than_machines"] or j[1] >= m[0]:
                 mm = m[0] if not p["allow_less_jobs_than_machines"] else m[1]
                 out.append(("enumerate", key, (j[1], mm), cap))
+        if i % 3 == 1:
+            # only one of the two sizes requested, the other drawn by the generator
+            j, m = norm(p["num_jobs"]), norm(p["num_machines"])
+            for jj in sorted({j[0], j[1]}):
+                out.append(("enumerate", key, (jj, None), cap))
+            if p["allow_less_jobs_than_machines"]:
+                out.append(("enumerate", key, (None, m[1]), cap))
     seeds = [0, 1, 2, 42] if tier == "quick" else list(range(10)) + [42, 2**31]
     ss = settings(tier)
     step = max(1, len(ss) // (12 if tier == "quick" else 24))
@@ -94,7 +101,8 @@ def shape_errors(p, spec, explicit):
     j_rng, m_rng, k_rng = norm(p["num_jobs"]), norm(p["num_machines"]), norm(p["machines_per_operation"])
     d_rng = p["duration_range"]
     J = len(spec)
-    if explicit is None:
+    explicit = explicit or (None, None)
+    if explicit[0] is None:
         if not j_rng[0] <= J <= j_rng[1]:
             errs.append(f"job count {J} outside {j_rng}")
     elif J != explicit[0]:
@@ -104,7 +112,7 @@ def shape_errors(p, spec, explicit):
         errs.append(f"jobs have different numbers of operations {sorted(lens)}")
         return errs
     M = lens.pop()
-    if explicit is None:
+    if explicit[1] is None:
         if not m_rng[0] <= M <= m_rng[1]:
             errs.append(f"operations per job {M} outside machine range {m_rng}")
     elif M != explicit[1]:
